@@ -216,6 +216,10 @@ func (d *Decoder) ReadData() (interface{}, error) {
 		return d.readDate(int32(tag))
 	case binaryTag(tag):
 		return d.readBinary(int32(tag))
+	case tag == _binaryChunkLegacy && len(d.clsDefList) <= 2:
+		// a non-final binary chunk written by an older version; x62 means 'object, class #2' only once three
+		// classes have been defined
+		return d.readBinary(int32(_binaryChunk))
 	case refTag(tag):
 		return d.readRef(tag)
 	case tag == _mapTypedTag:
